@@ -246,6 +246,11 @@ func oracleForce(before []cueSnap, d int64, filler bool, after []*astisub.Item) 
 		if f.String() == "" {
 			return "filler has no placeholder text"
 		}
+		for _, b := range before {
+			if b.p == f {
+				return "the filler is not a new cue: it is a cue that was already in the list"
+			}
+		}
 		s := astisub.Subtitles{Items: after}
 		if int64(s.Duration()) != d {
 			return "duration after forcing with a filler is not d"
@@ -255,15 +260,19 @@ func oracleForce(before []cueSnap, d int64, filler bool, after []*astisub.Item) 
 }
 
 func suiteForce(R *runner, r *rng) {
-	R.rule("force: all well-formed timelines (start-ordered, non-decreasing ends, start<end) of <=3 (quick) / <=4 (thorough) cues on a 0..8 grid of 2 ms units x every d on the 1 ms half-grid 1..18 ms x filler in {true,false} (exhaustive); random well-formed timelines of <=30 cues at ns granularity with d before/inside/between/on a boundary/after; random ill-formed lists for the model comparison only; non-trivial = the call changes the list")
+	R.rule("force: all well-formed timelines (start-ordered, non-decreasing ends, start<end) of <=3 (quick) / <=4 (thorough) cues on a 0..8 grid of 2 ms units x every d on the 1 ms half-grid 1..18 ms x filler in {true,false} (exhaustive); random well-formed timelines of <=30 cues at ns granularity with d before/inside/between/on a boundary/after; random ill-formed lists for the model comparison only; 2..4 successive calls on the same value (growing and shrinking d, filler relabelled in between), each judged against the list before that call, the filler required to be a new cue; non-trivial = the call changes the list")
+	var runOn func(s *astisub.Subtitles, d int64, filler bool, wf bool, group string)
 	run := func(items []*astisub.Item, d int64, filler bool, wf bool, group string) {
+		runOn(&astisub.Subtitles{Items: items}, d, filler, wf, group)
+	}
+	runOn = func(s *astisub.Subtitles, d int64, filler bool, wf bool, group string) {
+		items := s.Items
 		u := uidsOf(items)
 		in := &enc{}
 		in.i(d).bool(filler).n(0)
 		encItems(in, items, u)
 		before := snapItems(items)
 		h := map[string]interface{}{"d_ns": d, "filler": filler, "cues": humanItems(items, u)}
-		s := &astisub.Subtitles{Items: items}
 		o := &obs{Suite: "force", Group: group, Input: in.String(), Human: h}
 		p := safely(func() { s.ForceDuration(time.Duration(d), filler) })
 		if p != "" {
@@ -373,5 +382,45 @@ func suiteForce(R *runner, r *rng) {
 		items := randItems(r, n, int64(time.Millisecond), 10, 2, false)
 		d := r.i64n(12) * int64(time.Millisecond)
 		run(items, d, r.chance(1, 2), false, "force.illformed")
+	}
+	// successive calls on the SAME value (2..4 calls, mostly with filler, the filler sometimes relabelled in between as a
+	// caller may do): every call is judged against the list as it stood before that call - the cues already there,
+	// earlier fillers included, are "the other cues" of the property - whenever that list is a well-formed timeline
+	wellFormed := func(items []*astisub.Item) bool {
+		for i, it := range items {
+			if it.StartAt >= it.EndAt || (i > 0 && (it.StartAt < items[i-1].StartAt || it.EndAt < items[i-1].EndAt)) {
+				return false
+			}
+		}
+		return true
+	}
+	for c := 0; c < N/4; c++ {
+		n := r.intn(5)
+		var items []*astisub.Item
+		var st, e int64
+		for i := 0; i < n; i++ {
+			st += r.i64n(3) * r.i64n(2_000_000_000)
+			ne := st + 1 + r.i64n(3_000_000_000)
+			if ne < e {
+				ne = e
+			}
+			e = ne
+			items = append(items, mkItem(st, e, fmt.Sprintf("t%d", i)))
+		}
+		s := &astisub.Subtitles{Items: items}
+		d := e
+		for k := 0; k < 2+r.intn(3); k++ {
+			switch r.intn(4) {
+			case 0:
+				d = d/2 + int64(time.Millisecond)
+			default:
+				d += int64(time.Millisecond) * (2 + r.i64n(9000))
+			}
+			runOn(s, d, r.chance(4, 5), wellFormed(s.Items), "force.successive")
+			if len(s.Items) > 0 && r.chance(1, 2) {
+				last := s.Items[len(s.Items)-1]
+				last.Lines = []astisub.Line{{Items: []astisub.LineItem{{Text: fmt.Sprintf("relabelled %d", k)}}}}
+			}
+		}
 	}
 }
